@@ -1205,8 +1205,16 @@ func (e *Env) sliceOp(fr *Frame, x *ssa.Slice, st *State) Value {
 			}
 			e.panicCheck(fr, "slice", st, mkAnd(sx("<=", "0", lo), sx("<=", lo, hi), sx("<=", hi, n)))
 			r := e.alloc(st)
-			e.trust("bytes of [N]byte values (hashes) are not related to the value: slices of them have unspecified contents")
-			return &Slice{Arr: r, Off: lo, Len: simplifySub(hi, lo), Cap: simplifySub(n, lo), Typ: x.Type()}
+			e.trust("bytes of [N]byte values (hashes): a slice of the whole value holds abytes(value); writes through such a slice are not reflected in the value")
+			sl := &Slice{Arr: r, Off: lo, Len: simplifySub(hi, lo), Cap: simplifySub(n, lo), Typ: x.Type()}
+			if lo == "0" && hi == n {
+				// the whole value viewed as bytes
+				e.declBytesFuncs()
+				if fl := e.flatten(e.load(st, b)); len(fl) == 1 {
+					e.assume(mkImp(st.pc, mkEq(e.contentTerm(st, sl), sx("|abytes!|", fl[0]))))
+				}
+			}
+			return sl
 		}
 		if b.Kind == "arr" {
 			at := b.Root.Underlying().(*types.Array)
